@@ -87,6 +87,19 @@ claim("C15", "proof",
       "correspondence exhaustive for small graphs, sampled beyond.",
       "Lean 4 proof (algorithm = path definitions for all rooted digraphs) + exhaustive small-graph correspondence", "5 (C15)")
 
+claim("C12", "proof",
+      "Lean 4 theorems (Props/C12.lean), by mutual structural induction over every statement tree, about the model of visit_statement / "
+      "complete_basic_block: the lifted CFG has an entry block without predecessors, mirrored and in-range successor/predecessor sets, a "
+      "smaller-indexed predecessor for every other block, hence every block is reachable, 'i dominates j' implies i <= j, and the graph is "
+      "Rooted so that all of C15 applies to it (the DominatorTree asserts cannot fire). PARTIAL: the clauses 'branch only as last statement "
+      "with targets among the successors', 'at most two successors' and 'recorded loop depth' are not yet proved for all inputs; they are "
+      "part of the executable predicate CfgSpec.wfProblems (dominance from the verified C15 computation), evaluated on every real CFG before "
+      "and after SSA. Tie: the model run on the real AST reproduces the real CFG block for block on hand-written nesting patterns and "
+      "generated definitions.",
+      "Lean kernel + standard axioms; statements are abstracted to skeletons (non-control statements are opaque); the parser's expansion of "
+      "for-loops/compound assignments and try_lift of expressions are outside the model; correspondence is sampled.",
+      "Lean 4 proof (invariant by mutual induction) + model/CFG equality + executable well-formedness predicate per instance", "5 (C12)")
+
 ALL = ["C%02d" % i for i in range(1, 21)]
 def main():
     checks = []
